@@ -19,6 +19,7 @@ pub struct Connection {
     pub addr: String,
     socket: Option<TcpStream>,
     buffer: BytesMut,
+    unknown_msgs: usize,
     #[cfg(feature = "verif")]
     mem: Option<crate::verif::MemPipe>,
 }
@@ -29,9 +30,15 @@ impl Connection {
             addr,
             socket: None,
             buffer: BytesMut::with_capacity(MAX_FRAME_SIZE),
+            unknown_msgs: 0,
             #[cfg(feature = "verif")]
             mem: None,
         }
+    }
+
+    /// Number of messages with unknown ID which were skipped since the last call.
+    pub fn take_unknown_msgs(&mut self) -> usize {
+        std::mem::take(&mut self.unknown_msgs)
     }
 
     pub fn with_socket(&mut self, socket: TcpStream) -> &mut Self {
@@ -151,6 +158,7 @@ impl Connection {
                         return Ok(None);
                     }
                     self.buffer.advance(len);
+                    self.unknown_msgs += 1;
                     // Next message could be already in the buffer
                 }
                 // Not enough data has been buffered
